@@ -155,16 +155,20 @@ async fn run_t<TC: ModelCfg>(spec: Spec) -> Out {
     for n in 1..=e_max {
         for s in 1..=n {
             let entries: Vec<(u64, Vec<u8>, u64)> = (s..=n).rev().map(|v| (v, value_of(v), epoch_of_fresh(v))).collect();
-            let proof = match forge.history(&label, &entries, e_max) {
-                Some(p) => p,
-                None => continue,
-            };
             let hp = if s == 1 { HistoryParams::Complete } else { HistoryParams::MostRecent((n - s + 1) as usize) };
-            out.checks += 1;
-            if akd::client::key_history_verify::<TC>(&pk, root, e_max, AkdLabel(label.clone()), proof, HistoryVerificationParams::Default { history_params: hp }).is_ok() {
-                hist_accepted.entry(n).or_default().push((s, s == 1));
-            } else {
-                *out.probes.entry("assembled_history_rejected".into()).or_insert(0) += 1;
+            // (a) assembled with every part the verifier is entitled to; (b) with the unsupported parts left out
+            for (how, proof) in [("assembled", forge.history(&label, &entries, e_max)), ("assembled_with_omissions", forge.history_omitting(&label, &entries, e_max))] {
+                let proof = match proof {
+                    Some(p) => p,
+                    None => continue,
+                };
+                out.checks += 1;
+                if akd::client::key_history_verify::<TC>(&pk, root, e_max, AkdLabel(label.clone()), proof, HistoryVerificationParams::Default { history_params: hp }).is_ok() {
+                    hist_accepted.entry(n).or_default().push((s, s == 1));
+                    *out.probes.entry(format!("{how}_history_accepted")).or_insert(0) += 1;
+                } else {
+                    *out.probes.entry(format!("{how}_history_rejected")).or_insert(0) += 1;
+                }
             }
         }
     }
@@ -280,11 +284,11 @@ impl Arm for C08 {
         out
     }
     fn rule(&self) -> String {
-        "one case = one real tree built by a (possibly dishonest) publisher over E <= 20 epochs: a seeded set S of fresh(v)/stale(v) leaves of one label (honest prefix 1..n plus isolated later leaves, prefixes with gaps at marker versions, random subsets; version v placed in epoch v, stale(v) with v+1) among filler leaves. Inside the tree EVERY history claim [s,n] (Complete when s=1, MostRecent(n-s+1) otherwise) and EVERY lookup claim m is assembled from real membership / honest non-membership proofs wherever the tree allows, and goes through the real verifiers. Oracle: at most one latest version is accepted from history proofs; if a complete history with latest n is accepted, every accepted lookup has version n. The (s,n,m) space inside one tree is walked completely; the search is over (E, S). non-trivial = at least one claim verifies; distinct = distinct (E, S)".into()
+        "one case = one real tree built by a (possibly dishonest) publisher over E <= 20 epochs: a seeded set S of fresh(v)/stale(v) leaves of one label (honest prefix 1..n plus isolated later leaves, prefixes with gaps at marker versions, random subsets; version v placed in epoch v, stale(v) with v+1) among filler leaves. Inside the tree EVERY history claim [s,n] (Complete when s=1, MostRecent(n-s+1) otherwise) and EVERY lookup claim m is assembled from real membership / honest non-membership proofs wherever the tree allows - and every history claim a second time with the parts the tree cannot support simply left out (previous-version part of a version whose predecessor was never retired, absent past markers, present future markers) - and goes through the real verifiers. Oracle: at most one latest version is accepted from history proofs; if a complete history with latest n is accepted, every accepted lookup has version n. The (s,n,m) space inside one tree is walked completely; the search is over (E, S). non-trivial = at least one claim verifies; distinct = distinct (E, S)".into()
     }
     fn assumptions(&self) -> Vec<String> {
         vec![
-            "claims are assembled honestly from what the tree contains; forged sub-proofs are C05-C07's subject".into(),
+            "claims are assembled from what the tree contains, complete or with unsupported optional parts omitted; forged sub-proofs (wrong anchors, tampered hashes) are C05-C07's subject".into(),
             "bounded exhaustive enumeration of all (E, n, m, S) as the quantifier words it would be model checking; S is sampled".into(),
         ]
     }
